@@ -947,9 +947,10 @@ class WkScenario:
     def ctmod(self, c, which): self.L.append("wk_ctmod %d %s" % (c, which)); self.nC += 1; return self.nC - 1
     def decrypt(self, c, k, expect="-"): self.L.append("wk_decrypt %d %d %s" % (c, k, expect))
     def decryptm(self, c, m): self.L.append("wk_decryptm %d %d" % (c, m))
-    def sign(self, p, k, attrs, msg, pre=None, nullattrs=False):
-        if pre is None: self.L.append("wk_sign %d %d 0 %s %s %s" % (p, k, self.spec(attrs), hx(msg, 256), self.stream(400)))
-        else: self.L.append("wk_signpre %d %d 0 %s %d %d %s %s" % (p, k, self.spec(attrs), pre, 1 if nullattrs else 0, hx(msg, 256), self.stream(400)))
+    def sign(self, p, k, attrs, msg, pre=None, nullattrs=False, first=None):
+        st = self.stream(400) if first is None else (first.to_bytes(32, "little").hex() + self.stream(368))
+        if pre is None: self.L.append("wk_sign %d %d 0 %s %s %s" % (p, k, self.spec(attrs), hx(msg, 256), st))
+        else: self.L.append("wk_signpre %d %d 0 %s %d %d %s %s" % (p, k, self.spec(attrs), pre, 1 if nullattrs else 0, hx(msg, 256), st))
         self.nS += 1; return self.nS - 1
     def sigmod(self, s_, which): self.L.append("wk_sigmod %d %s" % (s_, which)); self.nS += 1; return self.nS - 1
     def verify(self, p, attrs, s_, msg, pre=None):
@@ -1175,6 +1176,14 @@ def gen_wkdibe(rng, n, tier):
             leaf = S.key(op_, p0, k, tgt, **kw)
             msg_ = rng.choice([1, R - 1, rng.getrandbits(256)])
             sg_ = S.sign(p0, leaf, tgt, msg_); S.verify(p0, tgt, sg_, msg_); S.verify(p0, tgt, sg_, (msg_ + 1) % (1 << 256))
+    # a signing exponent that cancels the key's own randomness: a non-delegable key from the master key has a1 = g^1, so s = r - 1 makes
+    # the signature's a1 the IDENTITY (and a0 free of the attribute product) - a genuine signature that must verify; also s = 1, r - 2
+    full_ = [(i, vals[i], False) for i in range(l)]
+    knd_ = S.key("wk_ndkeygen", p0, m0, full_, random=False)
+    for s_first in (R - 1, 1, R - 2):
+        for msg_ in (5, R - 1):
+            sg_ = S.sign(p0, knd_, full_, msg_, first=s_first); S.verify(p0, full_, sg_, msg_); S.verify(p0, full_, sg_, msg_ + 1)
+            rp_ = S.pre(p0, full_); S.verify(p0, None, sg_, msg_, pre=rp_)
     # signatures
     for (k, pat) in klist[: (4 if tier != "thorough" else 20)]:
         fixed = [(i, vals[i], False) for i, ch in enumerate(pat) if ch == "x"]
@@ -1255,6 +1264,12 @@ def expand_unmarshal(lines, outs, rng, tier):
             for v in (R, R - 1, R + 1, (1 << 256) - 1, 0):
                 extra.append("%s %s %s %d %s" % (op, ty, comp, rng.randrange(2), v.to_bytes(32, "little").hex()))
             continue
+        # a refused load followed by a good one into the SAME object (the corrupted copy is rejected half way, after some members were
+        # stored): the second load must not depend on what the first one left behind
+        if op == "wk_um" and ty in ("params", "sk") and len(b) > 8:
+            for frac in (0.3, 0.55, 0.8, 0.97):
+                m = bytearray(b); m[min(len(b) - 1, max(1, int(len(b) * frac)))] ^= 0x10
+                extra.append("%s %s %s 1 %s %s" % (op, ty, comp, hexb, bytes(m).hex()))
         # elements of the fixed-layout objects replaced by off-curve points of order r (uncompressed: (4x, 8y); compressed G1: an
         # abscissa of no curve point whose root candidate has order r on an isomorphic curve): validating unmarshal must refuse
         layouts = {("wk_um", "msk"): ["g1"], ("wk_um", "sig"): ["g1", "g2"], ("wk_um", "ct"): [576, "g2", "g1"],
